@@ -42,7 +42,7 @@ def run(ctx):
                         expect_violation="RecordsOncePerStepInOrder", count=False)
     # design canaries: the pinned mechanism violates the C15 clauses
     small2 = dict(b, Ks=[2], SolveTs=[2, 3], SkipTs=[0], MaxFaults=1, Foreigns=[[], ["t0"], ["o0", "t1"]])
-    for inv in ("NoStrayOutput", "OutputHoldsOnlyCompleteFrames", "CancelGivesUsableSolution"):
+    for inv in ("NoStrayOutput", "OutputHoldsOnlyCompleteFrames", "CancelGivesUsableSolution", "RecordsOncePerStepInOrder"):
         ctx.model_check("TdglRun", rf.model_cfg(small2, rf.PINNED, [inv]), name=f"TdglRun[pinned mechanism, {inv}]",
                         expect_violation=inv, count=False)
     # replay: the loop dimension and the file-system dimension are independent in the code, so the
